@@ -4,7 +4,9 @@ What the specification decides:
 1. TLC, address formation on the specification (BoundsTheorems.tla over TeakCore!CoreCycle, boundary cases of
    every way an address is formed): data accesses, MMIO offsets and loop-frame indices stay in range for every
    address; the program-side addresses that do leave the array do so only under NAMED causes
-   (MC_Bounds.cfg); MC_Bounds_strict.cfg (no cause accepted) exhibits the known findings.
+   (MC_Bounds.cfg); MC_Bounds_strict.cfg (no cause accepted) exhibits the known findings.  Data-address formation
+   (MMIO window, page mode, x/y/z pages, x size; 32-bit-address host accessors) is additionally proved in range or
+   asserting for ALL 2^16 addresses and ALL register contents by Apalache/SMT (BoundsInd.tla).
 2. Conformance of the bounds behaviour: every first word executed by the real interpreter from states that
    include the ends of the program space and non-zero program pages (isa_rec wild mode; the memory hook
    reports and vetoes every raw access outside the array).  TLC validates each execution in full against
@@ -49,6 +51,10 @@ def run(ck):
     ck.build('isa_rec')
     ck.build('fuzz_rec', flavour='asan')
     ck.mc('MC_Bounds', 'MC_Bounds.cfg', timeout=1800, coverage=False)
+    # data-address formation for EVERY address under EVERY MIU register content, symbolically (Apalache on BoundsInd.tla);
+    # TLC compares BoundsInd's operators with TeakMachine's on the boundary set
+    ck.mc('BoundsIndSame', 'MC_BoundsIndSame.cfg', workers=4, coverage=False, timeout=900)
+    ck.apalache('BoundsInd', 'BoundsInd.cfg', 'InBounds', timeout=900)
     r = ck.mc('MC_Bounds', 'MC_Bounds_strict.cfg', must_hold=False, coverage=False, timeout=1800)
     strict_violated = r.violated == 'InBounds'
     seen = {}
